@@ -306,42 +306,53 @@ def mkQH (n : Nat) (herm : Tensor) (anti : Option Tensor) (c mu : GQ) : PT :=
 
 def half : GQ := ⟨1/2, 0⟩
 
-/-- `get_quadratic_hamiltonian`; returns the tensor and whether the antisymmetric part was kept -/
+/-- the body of the loop of `get_quadratic_hamiltonian` over the normal-ordered terms (`no` is the
+normal-ordered operator itself, consulted for the conjugate term) -/
+def qhStep (tol : Rat) (ignore : Bool) (no : Op) (st : GQ × Tensor × Tensor) (tc : Term × GQ) :
+    Except Err (GQ × Tensor × Tensor) :=
+  if GQ.isSmall tol tc.2 then .ok st
+  else match tc.1 with
+  | [] => .ok (tc.2, st.2.1, st.2.2)
+  | [(p, a), (q, b)] =>
+    if a = 1 ∧ b = 0 then .ok (st.1, tset [p, q] tc.2 st.2.1, st.2.2)
+    else if a = 1 ∧ b = 1 then
+      match Dict.get? no [(p, 0), (q, 0)] with
+      | none => Except.error Err.quadraticHamiltonianError
+      | some m =>
+        -- discrepancy = |c - (-conj m)| > tol
+        if (tc.2 - (-(GQ.conj m))).normSq > tol * tol then Except.error Err.quadraticHamiltonianError
+        else .ok (st.1, st.2.1, madd (madd st.2.2 p q (half * tc.2)) q p (-(half * tc.2)))
+    else
+      -- "ladder_type == [0, 0]" (the else branch of the source)
+      match Dict.get? no [(p, 1), (q, 1)] with
+      | none => Except.error Err.quadraticHamiltonianError
+      | some m =>
+        if (tc.2 - (-(GQ.conj m))).normSq > tol * tol then Except.error Err.quadraticHamiltonianError
+        else .ok (st.1, st.2.1, madd (madd st.2.2 p q (-(half * GQ.conj tc.2))) q p (half * GQ.conj tc.2))
+  | _ => if ignore then .ok st else Except.error Err.quadraticHamiltonianError
+
+/-- the scatter loop: `(constant, combined hermitian part, antisymmetric part)` -/
+def qhScatter (tol : Rat) (ignore : Bool) (n : Nat) (no : Op) : Except Err (GQ × Tensor × Tensor) :=
+  no.foldlM (qhStep tol ignore no) (0, tzeros n 2, tzeros n 2)
+
+/-- exact regime of `get_quadratic_hamiltonian`: every pairing term of the normal-ordered operator has
+exactly the conjugate partner (the source accepts a discrepancy below the tolerance) -/
+def qhExact (tol : Rat) (A : Op) : Bool :=
+  (normalOrdered tol A).all fun e =>
+    match e.1 with
+    | [(p, 1), (q, 1)] => Dict.getD (normalOrdered tol A) [(p, 0), (q, 0)] 0 == -(GQ.conj e.2)
+    | [(p, 0), (q, 0)] => Dict.getD (normalOrdered tol A) [(p, 1), (q, 1)] 0 == -(GQ.conj e.2)
+    | _ => true
+
+/-- `get_quadratic_hamiltonian` -/
 def getQuadraticHamiltonian (tol : Rat) (A : Op) (mu : GQ) (n? : Option Nat) (ignore : Bool) :
     Except Err PT := do
   let n ← resolveN A n?
-  let no := normalOrdered tol A
-  let init : GQ × Tensor × Tensor := (0, tzeros n 2, tzeros n 2)
-  let r ← no.foldlM (fun (st : GQ × Tensor × Tensor) (tc : Term × GQ) =>
-    let (term, c) := tc
-    let (const, herm, anti) := st
-    if GQ.isSmall tol c then .ok st
-    else match term with
-    | [] => .ok (c, herm, anti)
-    | [(p, a), (q, b)] =>
-      if a = 1 ∧ b = 0 then .ok (const, tset [p, q] c herm, anti)
-      else if a = 1 ∧ b = 1 then
-        match Dict.get? no [(p, 0), (q, 0)] with
-        | none => Except.error Err.quadraticHamiltonianError
-        | some m =>
-          -- discrepancy = |c - (-conj m)| > tol
-          let disc := c - (-(GQ.conj m))
-          if disc.normSq > tol * tol then Except.error Err.quadraticHamiltonianError
-          else .ok (const, herm, madd (madd anti p q (half * c)) q p (-(half * c)))
-      else
-        -- "ladder_type == [0, 0]" (the else branch of the source)
-        match Dict.get? no [(p, 1), (q, 1)] with
-        | none => Except.error Err.quadraticHamiltonianError
-        | some m =>
-          let disc := c - (-(GQ.conj m))
-          if disc.normSq > tol * tol then Except.error Err.quadraticHamiltonianError
-          else .ok (const, herm, madd (madd anti p q (-(half * GQ.conj c))) q p (half * GQ.conj c))
-    | _ => if ignore then .ok st else Except.error Err.quadraticHamiltonianError) init
-  let (const, comb, anti) := r
-  let herm := addDiag n mu comb
+  let r ← qhScatter tol ignore n (normalOrdered tol A)
+  let herm := addDiag n mu r.2.1
   if !isHermitianMat tol n herm then .error .quadraticHamiltonianError
-  else if maxSmall tol n 2 anti then .ok (mkQH n herm none const mu)
-  else .ok (mkQH n herm (some anti) const mu)
+  else if maxSmall tol n 2 r.2.2 then .ok (mkQH n herm none r.1 mu)
+  else .ok (mkQH n herm (some r.2.2) r.1 mu)
 
 /-- `DiagonalCoulombHamiltonian`: `(one_body, two_body, constant)` -/
 structure DCH where
@@ -372,30 +383,40 @@ def mkDCH (n : Nat) (one two : Tensor) (c : GQ) : Except Err DCH :=
     let two' := (List.range n).foldl (fun acc i => tset [i, i] 0 acc) two
     .ok ⟨n, one', two', c⟩
 
+/-- the body of the loop of `get_diagonal_coulomb_hamiltonian` over the normal-ordered terms -/
+def dchStep (tol : Rat) (ignore : Bool) (st : GQ × Tensor × Tensor) (tc : Term × GQ) :
+    Except Err (GQ × Tensor × Tensor) :=
+  if GQ.isSmall tol tc.2 then .ok st
+  else match tc.1 with
+  | [] => .ok (tc.2, st.2.1, st.2.2)
+  | [(p, 1), (q, 0)] => .ok (st.1, tset [p, q] tc.2 st.2.1, st.2.2)
+  | [(p, 1), (q, 1), (r, 0), (s, 0)] =>
+    if p = r ∧ q = s then
+      -- abs(imag(c)) > tol
+      if tc.2.im * tc.2.im > tol * tol then Except.error Err.valueError
+      else
+        .ok (st.1, st.2.1, tset [q, p] ⟨-(1/2) * tc.2.re, 0⟩ (tset [p, q] ⟨-(1/2) * tc.2.re, 0⟩ st.2.2))
+    else if ignore then .ok st else Except.error Err.valueError
+  | _ => if ignore then .ok st else Except.error Err.valueError
+
+/-- the scatter loop: `(constant, one_body, two_body)` -/
+def dchScatter (tol : Rat) (ignore : Bool) (n : Nat) (no : Op) : Except Err (GQ × Tensor × Tensor) :=
+  no.foldlM (dchStep tol ignore) (0, tzeros n 2, tzeros n 2)
+
+/-- exact regime of `get_diagonal_coulomb_hamiltonian`: the two-body coefficients of the normal-ordered
+operator are real (the source drops an imaginary part below the tolerance) -/
+def dchExact (tol : Rat) (A : Op) : Bool :=
+  (normalOrdered tol A).all fun e =>
+    match e.1 with
+    | [(_, 1), (_, 1), (_, 0), (_, 0)] => e.2.im == 0
+    | _ => true
+
 /-- `get_diagonal_coulomb_hamiltonian` -/
 def getDiagonalCoulomb (tol : Rat) (A : Op) (n? : Option Nat) (ignore : Bool) : Except Err DCH := do
   let n ← resolveN A n?
-  let no := normalOrdered tol A
-  let init : GQ × Tensor × Tensor := (0, tzeros n 2, tzeros n 2)
-  let r ← no.foldlM (fun (st : GQ × Tensor × Tensor) (tc : Term × GQ) =>
-    let (term, c) := tc
-    let (const, one, two) := st
-    if GQ.isSmall tol c then .ok st
-    else match term with
-    | [] => .ok (c, one, two)
-    | [(p, 1), (q, 0)] => .ok (const, tset [p, q] c one, two)
-    | [(p, 1), (q, 1), (r, 0), (s, 0)] =>
-      if p = r ∧ q = s then
-        -- abs(imag(c)) > tol
-        if c.im * c.im > tol * tol then Except.error Err.valueError
-        else
-          let v : GQ := ⟨-(1/2) * c.re, 0⟩
-          .ok (const, one, tset [q, p] v (tset [p, q] v two))
-      else if ignore then .ok st else Except.error Err.valueError
-    | _ => if ignore then .ok st else Except.error Err.valueError) init
-  let (const, one, two) := r
-  if !isHermitianMat tol n one then .error .valueError
-  else mkDCH n one two const
+  let r ← dchScatter tol ignore n (normalOrdered tol A)
+  if !isHermitianMat tol n r.2.1 then .error .valueError
+  else mkDCH n r.2.1 r.2.2 r.1
 
 /-! ### opconversions/conversions.py -/
 
